@@ -58,6 +58,8 @@ def plan(tier, seed):
 def required(tier):
     return {'classes': ['sequential:other-thread-after-create:refused',
                         'sequential:other-thread-after-close:refused',
+                        'sequential:other-thread-after-owner-failed-open:refused',
+                        'sequential:other-thread-after-subclass-create:refused',
                         'guard-interleaving:one-ok-one-refused'],
             'counters': {'guard_interleavings_run': 1, 'random_schedules_run': 100,
                          'stress_rounds': 100},
@@ -315,17 +317,53 @@ def sequential(Store, rec, case0):
         except Exception as e:  # noqa: BLE001
             res[tag] = f'error:{type(e).__name__}'
 
+    def run_other(tag):
+        t = threading.Thread(target=other, args=(tag,))
+        t.start()
+        t.join()
+
     st = Store.create()
-    t = threading.Thread(target=other, args=('after-create',))
-    t.start()
-    t.join()
+    run_other('after-create')
     st2 = Store.create()            # the owner itself may create more stores
     st2.close()
+    # failing constructor calls by the owner must not release the confinement
+    import tempfile
+    from pathlib import Path
+    d = Path(tempfile.mkdtemp(prefix='c20-'))
+    junk = d / 'not-netcdf.nc'
+    junk.write_bytes(b'this is not a NetCDF file' * 20)
+    failed = []
+    for i, fn in enumerate((
+            lambda: Store.open(base_file=junk), lambda: Store.append(base_file=junk),
+            lambda: Store.open(), lambda: Store.open(base_file=d / 'missing.nc'),
+            lambda: Store.create(title=1, base_file=None, associated_files=[('x', ['y'])]))):
+        try:
+            fn().close()
+        except Exception:  # noqa: BLE001
+            pass
+        run_other(f'after-owner-failed-open#{i}')      # after EACH failing call
+        failed.append(res.get(f'after-owner-failed-open#{i}'))
+    res['after-owner-failed-open'] = 'refused' if all(x == 'refused' for x in failed) \
+        else f'outcomes per failing call: {failed}'
     st.close()
-    t = threading.Thread(target=other, args=('after-close',))
-    t.start()
-    t.join()
-    for tag in ('after-create', 'after-close'):
+    run_other('after-close')
+    import shutil
+    shutil.rmtree(d, ignore_errors=True)
+    # first store of the process is an instance of a subclass
+    class SubStore(Store):
+        pass
+    Store.active_in_thread = None
+    for c in (SubStore,):
+        if 'active_in_thread' in c.__dict__:
+            delattr(c, 'active_in_thread')
+    sub = SubStore.create()
+    run_other('after-subclass-create')
+    sub.close()
+    if 'active_in_thread' in SubStore.__dict__:
+        delattr(SubStore, 'active_in_thread')
+    Store.active_in_thread = None
+    for tag in ('after-create', 'after-owner-failed-open', 'after-close',
+                'after-subclass-create'):
         rec.ev()
         if res.get(tag) != 'refused':
             rec.violation(f'a second thread created a store {tag} by the owner thread',
